@@ -45,13 +45,13 @@ CHECKS.update({
 TREE = "stateless depth-first exploration of the parser's execution tree (driver owns the character iterator; every input over layered alphabets up to a depth bound executed on the real parser) against an independent pushdown-automaton reference"
 CHECKS.update({
     "C01": (
-        "chk-parse", MC, TREE + "; complete byte-sequence families Pumped linear families (refmodel::pump) complement the small-scope search: 13 one-parameter families (long strings of four kinds, a long key, long arrays, many distinct / duplicated keys, long integers and fractions) executed for every size 0..40 and 2^k-1, 2^k, 2^k+1 up to 65 537.",
+        "chk-parse", MC, TREE + "; complete byte-sequence families",
         "Every input over eight alphabets (structure, mixed, number automaton x 4 follow contexts, literals, string escapes, surrogate macro-symbols, an 19-token alphabet, a 24-byte alphabet) up to a depth that is iterated upward inside the time budget, plus one (quick) / two (thorough) deviations from a ~210-character wide alphabet (all ASCII, every UTF-8 length class and lead-byte class, Unicode spaces, BOM, surrogate neighbours, and 56 characters that alias an ASCII syntax character modulo 2^8 / 2^16), plus every byte sequence of length <= 3 (and the 4-byte families) inside strings and at top level, plus every truncation, single-byte substitution, insertion and deletion at every offset of the 311 corpus documents, plus (all tiers) every Unicode scalar as a raw character and all 65 536 \\u escapes, is executed through every entry point and the verdict compared with R-pda + surrogate well-formedness + core::str::from_utf8. Subtrees below non-viable prefixes are pruned (sound for a deterministic single-pass parser) with a post-mortem horizon of 2 for the entry points whose consumption cannot be observed.",
         "Bounded by depth and deviation count; transfer to longer texts rests on the finiteness of the parser's control state (lexical state x top of stack x lookahead), all of whose (state, input class) pairs occur in the trees. Reference models are cross-checked against each other and serde_json on every node.",
         "4/C01",
     ),
     "C02": (
-        "chk-parse", MC, TREE + " on accepted leaves; complete enumeration of the escape / surrogate-pair / scalar domains Pumped linear families (refmodel::pump) complement the small-scope search: 13 one-parameter families (long strings of four kinds, a long key, long arrays, many distinct / duplicated keys, long integers and fractions) executed for every size 0..40 and 2^k-1, 2^k, 2^k+1 up to 65 537.",
+        "chk-parse", MC, TREE + " on accepted leaves; complete enumeration of the escape / surrogate-pair / scalar domains",
         "Every accepted text of the trees plus the complete families (all 65 536 \\uXXXX in both hex cases, all 1 048 576 surrogate pairs, all 1 112 064 raw scalars, all backslash+ASCII pairs, the inline->heap spill lengths 0..40, every value up to 6/7 nodes over keys {a,b} with every duplicate-key pattern and alternating raw/escaped key spellings) is parsed through parse_str, parse_slice and the observed iterator; the value observed through the public accessors must equal R-dec's abstract value and every key lookup on every object must equal a linear scan.",
         "Large/nested documents beyond the tree depth are outside; R-dec is an independent recursive-descent decoder cross-checked with R-pda and serde_json.",
         "4/C02",
@@ -63,19 +63,19 @@ CHECKS.update({
         "4/C03",
     ),
     "C05": (
-        "chk-parse", MC, TREE + " on accepted leaves against R-dec's expected code map Pumped linear families (refmodel::pump) complement the small-scope search: 13 one-parameter families (long strings of four kinds, a long key, long arrays, many distinct / duplicated keys, long integers and fractions) executed for every size 0..40 and 2^k-1, 2^k, 2^k+1 up to 65 537.",
+        "chk-parse", MC, TREE + " on accepted leaves against R-dec's expected code map",
         "For every accepted text of the structure, mixed, string and token trees (and the whitespace and spill families) the returned code map must equal R-dec's pre-order list of (start, end, volume) exactly, through the string, byte-slice and iterator entry points; plus root volume = length, volumes >= 1, one entry per traversal fragment.",
         "Documents beyond the depth bounds are outside; R-dec's map construction follows DESIGN A.2.",
         "4/C05",
     ),
     "C07": (
-        "chk-parse", MC, TREE + " on every rejected node, compared with the viable-prefix recogniser Pumped linear families (refmodel::pump) complement the small-scope search: 13 one-parameter families (long strings of four kinds, a long key, long arrays, many distinct / duplicated keys, long integers and fractions) executed for every size 0..40 and 2^k-1, 2^k, 2^k+1 up to 65 537.",
+        "chk-parse", MC, TREE + " on every rejected node, compared with the viable-prefix recogniser",
         "Every rejected node (including post-mortem nodes and all byte families / corpus edits): Unexpected must carry exactly the longest-viable-prefix length and the character there (none iff at the end); InvalidUtf8 the offset of the first ill-formed sequence unless a syntax error lies strictly before it; surrogate errors the offending code units and a span inside the escape sequence(s); every offset a character boundary inside the input; checked for every entry point.",
         "Weaker reading for surrogate spans (may extend to the detection point, DESIGN A.7.1); which of several coexisting faults is reported first is only constrained as far as the statement fixes it.",
         "4/C07",
     ),
     "C11": (
-        "chk-parse", MC, TREE + " on the token trees: every accepted document's navigation API compared with a traversal table Pumped linear families (refmodel::pump) complement the small-scope search: 13 one-parameter families (long strings of four kinds, a long key, long arrays, many distinct / duplicated keys, long integers and fractions) executed for every size 0..40 and 2^k-1, 2^k, 2^k+1 up to 65 537.",
+        "chk-parse", MC, TREE + " on the token trees: every accepted document's navigation API compared with a traversal table",
         "For every accepted document of two token alphabets (all token sequences up to the bound): get_fragment for every index and three past the end, iter_mapped on every array and object, the eight mapped key lookups for every key and an absent key, volume and count are compared with a table built from traverse(), and the span at each returned offset is cut from the source and re-parsed; every value up to 6/7 nodes with every duplicate-key pattern (compact and pretty); conversions: every nested-array / map shape up to a bound with a wrong-kind value planted at every position must fail at that fragment's index.",
         "Relies on C05 for span exactness. Conversions are covered for Vec<Vec<String>>, a harness leaf type, BTreeMap<String, Vec<_>>, Option/Box/scalars.",
         "4/C11",
@@ -91,19 +91,19 @@ CHECKS.update({
 ENUM = "bounded-exhaustive enumeration (every value up to a node count over a leaf/key alphabet) x (every option record within two field deviations of a preset, thresholds straddling the actual widths)"
 CHECKS.update({
     "C04": (
-        "chk-print", EX, ENUM + "; print with the real printer, re-parse with the real parser Pumped linear families (refmodel::pump) complement the small-scope search: 13 one-parameter families (long strings of four kinds, a long key, long arrays, many distinct / duplicated keys, long integers and fractions) executed for every size 0..40 and 2^k-1, 2^k, 2^k+1 up to 65 537.",
+        "chk-print", EX, ENUM + "; print with the real printer, re-parse with the real parser",
         "Every value with <= 4 (quick) / <= 5 (thorough) nodes over the shape alphabet and <= 3 nodes over the rich alphabet (heap-spilled numbers, a string with every escape class, controls, DEL, U+2028, non-BMP, U+FFFF, the empty key, duplicate keys) is printed under the three presets and under every record that differs from a preset in at most two of the 15 fields (numeric fields 0..3, 8 indent units, all Limit variants with thresholds W-1, W, W+1 around every container's actual one-line width), thorough adds the full {0,1}^12 x 3 indents x 36 limit pairs grid; every Unicode scalar value is round-tripped as key and string; S-all: every string of length <= 4 / <= 5 over one representative of each character class the printer distinguishes; P-all: every ordered pair over U+0000..U+0020 + class representatives and triples over 9 characters; C-all: every character U+0000..U+00FF individually in containers with straddling width thresholds. Each output must parse (strict) to a value equal to the original.",
         "Relies on C01/C02 for the parser. Values beyond the node bound and records more than two fields away from a preset (outside the thorough grid) are not covered.",
         "4/C04",
     ),
     "C08": (
-        "chk-print", EX, "complete enumeration of the Unicode scalar domain + bounded-exhaustive structured values against a reference RFC 8785 serializer Pumped linear families (refmodel::pump) complement the small-scope search: 13 one-parameter families (long strings of four kinds, a long key, long arrays, many distinct / duplicated keys, long integers and fractions) executed for every size 0..40 and 2^k-1, 2^k, 2^k+1 up to 65 537.",
+        "chk-print", EX, "complete enumeration of the Unicode scalar domain + bounded-exhaustive structured values against a reference RFC 8785 serializer",
         "All 1 112 064 scalar values as a one-character string, as key and value, and inside an array string, plus S-all (length <= 5 / <= 6) and P-all strings and all structured values of the C04 families: compact_print, to_string, Display, String::from and print_with(compact) must be byte-identical to the reference serializer and contain no whitespace outside strings.",
         "Complete over the character domain; structured values bounded as in C04.",
         "4/C08",
     ),
     "C13": (
-        "chk-print", EX, ENUM + "; byte-for-byte against an independent reference layout printer Pumped linear families (refmodel::pump) complement the small-scope search: 13 one-parameter families (long strings of four kinds, a long key, long arrays, many distinct / duplicated keys, long integers and fractions) executed for every size 0..40 and 2^k-1, 2^k, 2^k+1 up to 65 537.",
+        "chk-print", EX, ENUM + "; byte-for-byte against an independent reference layout printer",
         "The same product as C04; the output must equal R-print (written from the option documentation, width = characters actually printed measured on the one-line text itself) byte for byte; the inline and compact presets never emit a line break; pretty_print equals print_with(pretty).",
         "Points the documentation leaves open (which spacing is printed in expanded form, expanded empty containers) are taken from the current behaviour (DESIGN A.5) - the check pins them rather than judging them.",
         "4/C13",
@@ -112,13 +112,13 @@ CHECKS.update({
 
 CHECKS.update({
     "C09": (
-        "chk-canon", EX, "bounded-exhaustive enumeration: every ordered selection of keys from a 15-key set (all subsets in every permutation) and three exhaustive number families, against an independent RFC 8785 reference Pumped linear families (refmodel::pump) complement the small-scope search: 13 one-parameter families (long strings of four kinds, a long key, long arrays, many distinct / duplicated keys, long integers and fractions) executed for every size 0..40 and 2^k-1, 2^k, 2^k+1 up to 65 537.",
+        "chk-canon", EX, "bounded-exhaustive enumeration: every ordered selection of keys from a 15-key set (all subsets in every permutation) and three exhaustive number families, against an independent RFC 8785 reference",
         "Keys: every ordered selection of up to 5 (quick) / 6 (thorough) distinct keys out of 18 - the set contains U+E000, U+FFFF, U+10000, U+10001 (same high surrogate), U+10FFFF and shared-prefix keys, i.e. the region where UTF-16 and code-point order differ - flat, object-in-object and object-in-array. Numbers: every JSON number spelling of length <= 7 / <= 8 over 0 1 2 5 9 - . e E +; for every double m*2^e with m in 16 (quick) / ~70 (thorough) mantissa patterns and every binary exponent, the exact decimal expansion of the double, of the midpoint to its successor and of the midpoint +-1 unit in the last place (up to ~770 digits); a positional family (short digit strings at every magnitude 1e-15..1e25 written without exponent); the notation thresholds and RFC 8785 Appendix B. canonicalize + compact_print must equal R-canon byte for byte.",
         "R-canon = std's correctly rounded str::parse::<f64> + std's shortest digits + ECMAScript's round-half-even tie rule via an exact big-integer expansion; self-checked against Appendix B and against ryu-js on every structured double. Long decimals outside the structured family are not covered.",
         "4/C09",
     ),
     "C10": (
-        "chk-canon", EX, "bounded-exhaustive enumeration of equivalence classes of documents (all member permutations, exact number respellings by a rewriting system, escape spellings, whitespace) with byte-identical canonical output required Pumped linear families (refmodel::pump) complement the small-scope search: 13 one-parameter families (long strings of four kinds, a long key, long arrays, many distinct / duplicated keys, long integers and fractions) executed for every size 0..40 and 2^k-1, 2^k, 2^k+1 up to 65 537.",
+        "chk-canon", EX, "bounded-exhaustive enumeration of equivalence classes of documents (all member permutations, exact number respellings by a rewriting system, escape spellings, whitespace) with byte-identical canonical output required",
         "Every permutation of every key set of up to 5 / 6 keys against the sorted selection; every exact respelling (exponent shift, trailing zeros, e/E, +, positional forms) of every number spelling of length <= 6 / <= 7; every pair of 12 escapable characters in all their escape spellings under four whitespace variants; on every value: second application is the identity, nothing but order and number spelling changes (numbers compared as doubles), every object stays queryable by key with a well-formed index (hook H1).",
         "The rewriting system is checked to be value-preserving with std's parser on every respelling (a failure is a machinery error).",
         "4/C10",
@@ -133,13 +133,13 @@ CHECKS.update({
         "4/C16",
     ),
     "C17": (
-        "chk-serde", EX, "bounded-exhaustive enumeration of number spellings (walk of the number DFA up to a length bound) and of all values up to a node bound with duplicate keys in every pattern Pumped linear families (refmodel::pump) complement the small-scope search: 13 one-parameter families (long strings of four kinds, a long key, long arrays, many distinct / duplicated keys, long integers and fractions) executed for every size 0..40 and 2^k-1, 2^k, 2^k+1 up to 65 537.",
+        "chk-serde", EX, "bounded-exhaustive enumeration of number spellings (walk of the number DFA up to a length bound) and of all values up to a node bound with duplicate keys in every pattern",
         "Every JSON number spelling of length <= 7 / <= 8 over 0 1 9 - . e E + plus 20 boundary numbers, bare / array item / object member; every value with <= 5 / <= 6 nodes over leaves {null, 0, 1.5, \"a\"} and keys {a, b, the reserved token}. Serialize with the crate's serializer must reproduce the value exactly (-0 may lose its sign), duplicates collapsing to the first position holding the last value; from_value::<Value> and serde_json::from_str::<Value> must give the same structure with every number denoting the same integer or double.",
         "Known-finding classes D9a, D9b, D11 are matched by predicates implemented in the check (known_findings.json); the text path is judged against the double serde_json's own deserializer delivers.",
         "4/C17",
     ),
     "C18": (
-        "chk-serde", EX, "bounded-exhaustive enumeration: serde_json numbers in all three representations over structured doubles, every number spelling up to a length bound, every value up to a node bound, both directions Pumped linear families (refmodel::pump) complement the small-scope search: 13 one-parameter families (long strings of four kinds, a long key, long arrays, many distinct / duplicated keys, long integers and fractions) executed for every size 0..40 and 2^k-1, 2^k, 2^k+1 up to 65 537.",
+        "chk-serde", EX, "bounded-exhaustive enumeration: serde_json numbers in all three representations over structured doubles, every number spelling up to a length bound, every value up to a node bound, both directions",
         "serde_json side: u64/i64 boundary integers, every binary exponent x 64 (1024) mantissas x 2 signs as Float, every duplicate-free value of <= 5 / <= 6 nodes; json-syntax side: every number spelling of length <= 7 / <= 8, boundary numbers, magnitudes outside double range, std's shortest spellings of the structured doubles, every value of <= 5 / <= 6 nodes. serde_json -> json-syntax -> serde_json must be the identity (also through the From impls); json-syntax -> serde_json -> json-syntax equal up to entry order and number spelling; no panic in either direction.",
         "Known finding D10 (panic on magnitudes no f64 can represent) is matched by its predicate. f64 is a structured subset.",
         "4/C18",
@@ -159,6 +159,24 @@ NOT_YET = {}
 
 PUMPED = {"C01", "C02", "C03", "C05", "C07", "C04", "C08", "C13", "C09", "C10", "C11", "C16", "C17", "C18"}
 PUMP = " Pumped linear families (refmodel::pump) complement the small-scope search: 13 one-parameter families (long strings of four kinds, a long key, long arrays, many distinct / duplicated keys, long integers and fractions, a nested long array) are executed for every size 0..40 and 2^k-1, 2^k, 2^k+1 up to 65 537."
+
+# families added after the seed rounds on rarely used routes and on history (DESIGN 10.6, sixth round)
+EXTRA = {
+    "C01": " History: every sequence of calls of length 2 over 65 documents x entry points and of length 3 (4 thorough) over a core alphabet is run on a fresh thread; every step must equal the same call made first on a fresh thread. The named option records (strict, default, flexible) are checked against their documentation.",
+    "C02": " All 13 entry points on every node of at most 9 (11) bytes and on every structured family; history sequences as in C01.",
+    "C03": " Every node is also fed from a source that answers an error after the node's last character (an Err must come back, nothing is pulled afterwards); history sequences as in C01.",
+    "C05": " All 13 entry points on every node of at most 9 (11) bytes and on every structured family; the seven routes to the code map's entries (iter, as_slice, Deref, AsRef, Borrow, both IntoIterator impls) must agree; history sequences as in C01.",
+    "C07": " Failing source: every node is also fed from a source that answers an error after the node's last character - an error strictly before it wins, otherwise Stream(bytes consumed) with the source's error value intact (the mechanism behind InvalidUtf8 in parse_slice); history sequences as in C01.",
+    "C11": " sub_fragments() of every fragment forwards, backwards and alternately from both ends against the children computed from the code map; map conversions on non-objects (root, nested, through Box), unparsable map keys reported at the key fragment, TryFromJsonObject.",
+    "C12": " History sequences as in C01 (including the lenient record); named option records.",
+    "C04": " The option-less conversions (Display, to_string, String::from(value)) must round-trip as well.",
+    "C13": " Other print routes: Print::fmt_with at base indentation levels 1 and 2 (the level-0 text with k more indent units after every line break), &Value, Meta<Value, M>, Stripped<Meta<...>>.",
+    "C09": " Every value is canonicalized through Value::canonicalize, Value::canonicalize_with with a number buffer reused across all calls of the thread, and (objects) Object::canonicalize / canonicalize_with; the routes must agree.",
+    "C10": " Every document is read through parse_str and parse_slice; both must canonicalize identically.",
+    "C15": " Pumped objects also with every value wrapped in a two-member object whose members are swapped in every other entry; Meta<Value, M> and Vec<Value> carriers.",
+    "C16": " Std containers and smart pointers (Box, Cow, arrays, 1-tuples, sets, deques, nested options, NonZero, Duration, Range, Result, paths, addresses) and a collect_str type as value and key.",
+    "C17": " Coherence: Object's own Serialize / Deserialize impls must agree with Value's on every object, duplicates included.",
+}
 
 props = [json.loads(l) for l in open(f"{root}/properties.jsonl")]
 checks = []
@@ -180,6 +198,8 @@ for p in props:
         }
         if pid in PUMPED:
             c["level_claimed"]["text"] += PUMP
+        if pid in EXTRA:
+            c["level_claimed"]["text"] += EXTRA[pid]
         checks.append(c)
     else:
         na.append({"property_id": pid, "reason": NOT_YET.get(pid, "check under construction in this session; not claimed until it runs clean (see DESIGN.md section 4 for the planned decision procedure)")})
